@@ -223,3 +223,43 @@ Proof.
   induction s as [|b r IH]; intros H; [reflexivity|].
   cbn [forallb] in H. apply andb_true_iff in H as [Hb Hr]. cbn [utf8_valid]. rewrite Hb. apply IH. exact Hr.
 Qed.
+
+(* ---- caller-thread paths ------------------------------------------------------------------- *)
+
+Lemma all_guards_sound : forallb (fun g => guard_sound (snd g)) session_guards = true.
+Proof. vm_compute. reflexivity. Qed.
+
+Lemma session_guards_raise :
+  forall g active kex_done, In g session_guards -> active && kex_done = false ->
+    api_guarded (snd g) active kex_done = Raises SSHExc.
+Proof.
+  intros g active kd Hin Hst. pose proof all_guards_sound as H. rewrite forallb_forall in H.
+  specialize (H g Hin). unfold guard_sound in H.
+  apply andb_true_iff in H as [H H4]. apply andb_true_iff in H as [H H3]. apply andb_true_iff in H as [H1 H2].
+  unfold api_guarded. destruct active, kd; cbn in Hst; try discriminate; rewrite ?H1, ?H2, ?H3; reflexivity.
+Qed.
+
+Lemma session_guards_pass :
+  forall g, In g session_guards -> api_guarded (snd g) true true = Returns.
+Proof.
+  intros g Hin. pose proof all_guards_sound as H. rewrite forallb_forall in H.
+  specialize (H g Hin). unfold guard_sound in H. apply andb_true_iff in H as [_ H4].
+  unfold api_guarded. destruct (snd g true true); [discriminate H4 | reflexivity].
+Qed.
+
+Lemma all_sites_ok : forallb site_ok caller_sites = true.
+Proof. vm_compute. reflexivity. Qed.
+
+Lemma caller_sites_guarded_or_known :
+  forall s, In s caller_sites -> snd s = true \/ existsb (zlist_eqb (fst s)) known_unguarded = true.
+Proof.
+  intros s Hin. pose proof all_sites_ok as H. rewrite forallb_forall in H. specialize (H s Hin).
+  unfold site_ok in H. apply orb_true_iff in H. exact H.
+Qed.
+
+Lemma guarded_site_allowed :
+  forall valid, match caller_decode true valid with Some e => allowed e = true | None => True end.
+Proof. intros [|]; cbn; auto. Qed.
+
+Lemma unguarded_site_leaks : caller_decode false false = Some UnicodeErr /\ allowed UnicodeErr = false.
+Proof. split; reflexivity. Qed.
